@@ -23,7 +23,13 @@ NOT_DECIDED = ('temporaries introduced by coercions and by analyse_types (coerce
 ASSUMPTIONS = ['a node constructor call evaluates exactly the sub-trees handed to it; for node classes whose evaluation sequence is extracted the operands are ordered by it, otherwise in '
                'argument order', 'attributes that are not child attributes of any node class (pos, type, entry, constant_result ...) are not sub-trees',
                'the handlers receive their operand lists in source order (args[i] before args[j] for i < j)']
-EXEMPT = {}
+EXEMPT = {
+    ('LET-ORDER', 'Optimize.IterationTransform._transform_enumerate_iteration:enumerate_function.arg_tuple.args[1]-before-enumerate_function.arg_tuple.args[0]'
+                  '@only-when(iterable.type.is_memoryviewslice=False,iterable.type.is_pyobject=False)'):
+        'infeasible path: the iterable is an argument of a call to the Python builtin enumerate(), and SimpleCallNode.analyse_types has coerced call arguments to Python objects '
+        'before this transform runs (memoryview slices are the one exception and are covered by the guard). Confirmed by compiling enumerate(cpp_vector_call(), start()), '
+        'enumerate(get_struct().arr, start()) with PYTHONPATH=/repo: the iterable is evaluated first in both. The unqualified construct (any operand type) is NOT exempted.',
+}
 # Genuine defects on the unchanged tree that these rules report (each confirmed by compiling a module with PYTHONPATH=/repo in a temp dir; v(name) logs its name):
 #  1. LET-ORDER _transform_enumerate_iteration (DESIGN finding 21): for i, x in enumerate(v('a'), v('b')) logs ['b', 'a'].
 #  2. LET-ORDER FlattenInListTransform.visit_PrimaryCmpNode (finding 22): v('x') in (v('a'), v('b')) logs ['a', 'b', 'x'].
